@@ -433,6 +433,14 @@ def _vm(mod, name, tier="quick", dispatches=6, **kw):
     if not kw.pop("objects", False):
         lim[r"^<cao_lang::vm::runtime::cao_lang_object::CaoLangObject as std::(cmp::PartialEq|cmp::PartialOrd|hash::Hash|fmt::Debug)>::\w+(::<.*>)?$#*"] = 1
         lim[r"^<cao_lang::prelude::CaoLangTable as std::fmt::Debug>::fmt$#*"] = 1
+    if not kw.get("gc_loops", False):
+        # instruction arms the program does not contain are still explored when CBMC cannot fold the
+        # opcode; their collection / table-teardown loops are cut to one iteration (an unwinding
+        # assertion fails if a harness really collects or frees a table)
+        lim[r"vm::runtime::RuntimeData::gc$#*"] = 1
+        lim[r"hash_map::clear_arrays::<.*>$#*"] = 1
+        lim[r"vm::runtime::RuntimeData::clear_objects$#*"] = 1
+    kw.pop("gc_loops", None)
     lim[r"vm::Vm::<.*>::_run$#0"] = dispatches + 1
     # HandleTable::default() zero-fills 16 handles
     lim[r"SpecFill<cao_lang::prelude::Handle>>::spec_fill$#0"] = 18
@@ -933,3 +941,31 @@ PROPS["C02"] = dict(
         _vm("c02", "c02_native_argument_survives", dispatches=2, bounds="native holding a popped string argument allocates; schedule in 0..=1", objects=True),
     ],
 )
+
+# --------------------------------------------------------------------------- function-level harnesses (fx)
+def _fx(name, tier, b, **kw):
+    kw.setdefault("objects", True)
+    return _vm("fx", name, tier, dispatches=0, bounds=b, **kw)
+
+
+PROPS["C01"]["harnesses"] += [
+    _fx("fx_c01_locals_off0", "thorough", "set_local/get_local directly: declare two locals, overwrite, read, undeclared read; frame offset 0"),
+    _fx("fx_c01_locals_off2", "quick", "same at frame offset 2 above two caller slots"),
+    _fx("fx_c01_call_return_off0_arg0", "thorough", "instr_call_function + get_local + instr_return: f(x,y) returns its local 0; caller frame at offset 0"),
+    _fx("fx_c01_call_return_off2_arg1", "quick", "same with the caller frame at offset 2, f returns its local 1"),
+    _fx("fx_c01_globals", "quick", "instr_set_var / instr_read_var: store, read back, unset global, unknown id"),
+]
+PROPS["C04"]["harnesses"] += [
+    _fx("fx_c04_call_non_function", "quick", "instr_call_function on an integer: InvalidArgument"),
+    _fx("fx_c04_call_unknown_label", "thorough", "call of a function value whose label is missing: ProcedureNotFound"),
+    _fx("fx_c04_call_missing_argument", "quick", "arity larger than the stack: MissingArgument"),
+    _fx("fx_c04_call_stack_full", "quick", "call with a full call stack: CallStackOverflow"),
+]
+PROPS["C06"]["harnesses"] += [
+    _fx("fx_c06_capture_off0_idx0", "thorough", "register_upvalue x2 (sharing) + write_upvalue + read_upvalue from a callee frame; enclosing frame at offset 0, local 0"),
+    _fx("fx_c06_capture_off2_idx1", "quick", "same, enclosing frame at offset 2, local 1"),
+    _fx("fx_c06_capture_off3_idx0", "thorough", "same, enclosing frame at offset 3, local 0"),
+    _fx("fx_c06_close_keeps_value_off0", "thorough", "close_upvalues at scope exit keeps the last value; offset 0"),
+    _fx("fx_c06_close_keeps_value_off2", "quick", "same at frame offset 2"),
+    _fx("fx_c06_return_closes_upvalues", "quick", "instr_return closes the upvalues of the frame it leaves"),
+]
